@@ -21,8 +21,8 @@ MAX = 65535          # LYB_SIZE_MAX (the model takes it from Generated/Consts.le
 FINDINGS_HELP = {
     "F27": "lyb_hash_siblings gives up (LY_EINT) when two siblings collide on every collision id",
     "F33": "default metadata value written with 2-byte length, read with 8",
-    "F50": "lyb_skip_siblings does not land at the end of the frame",
-    "F51": "module revision outside 2000..2127 cannot be packed",
+    "F69": "lyb_skip_siblings does not land at the end of the frame",
+    "F70": "module revision outside 2000..2127 cannot be packed",
 }
 
 
@@ -170,7 +170,7 @@ def run_wb(cx):
     for _ in range(cx.n(200, 800)):
         ops = boundary_case(rng, rng.choice([1, 1, 2]), rng.choice([-2, -1, 0, 1, 2]), rng.randrange(2, 6))
         skips.append((rng.randrange(ops.count("s")), ops))
-    # the two witnesses of F50 and their fine neighbours
+    # the two witnesses of F69 and their fine neighbours
     skips += [(0, ["s", "w:%d:1" % MAX, "s", "e", "e"]), (0, ["s", "w:%d:1" % (MAX - 1), "s", "e", "e"]),
               (1, ["s", "w:1:1", "s", "w:%d:1" % (MAX - 1), "s", "e", "w:1:1", "e", "w:1:1", "e"]),
               (1, ["s", "w:1:1", "s", "s", "e", "w:%d:1" % (MAX - 1), "w:1:1", "e", "w:1:1", "e"])]
@@ -193,7 +193,7 @@ def run_wb(cx):
     for y in years:
         for m, d in [(1, 1), (12, 31), (rng.randrange(1, 13), rng.randrange(1, 29)), (2, 28), (8, 16)]:
             cases.append(("rev " + hexs(b"%04d-%02d-%02d" % (y, m, d)), ("rev", y, m, d)))
-    for y in (2128, 2129, 2255, 2256, 2512, 9999, 1999, 1970, 1):       # outside the 7-bit year field: F51
+    for y in (2128, 2129, 2255, 2256, 2512, 9999, 1999, 1970, 1):       # outside the 7-bit year field: F70
         cases.append(("rev " + hexs(b"%04d-%02d-%02d" % (y, 6, 15)), ("rev", y, 6, 15)))
     cases.append(("rev -", ("rev", None, None, None)))
 
@@ -367,12 +367,12 @@ def classify(component, what, case):
     if component != "lyb" or not isinstance(case, dict):
         return None
     if case.get("op") == "skip" and case.get("model_rt0"):
-        return "F50"         # exactly the modelled behaviour of lyb_skip_siblings
+        return "F69"         # exactly the modelled behaviour of lyb_skip_siblings
     if case.get("op") == "rev" and case.get("year") is not None and not (2000 <= case["year"] <= 2127):
-        return "F51"
+        return "F70"
     if case.get("crash") and "printer_lyb.c" in case.get("stderr", "") and "left shift of negative value" in case.get("stderr", "") \
             and " rev " in (case.get("line") or ""):
-        return "F51"
+        return "F70"
     if case.get("op") == "sibs" and case.get("total_collision"):
         return "F27"
     if case.get("op") == "api":
@@ -391,16 +391,16 @@ def classify_api(what, case):
         except (IndexError, ValueError):
             return None
         if case.get("spec") == "-" and delta == 2:
-            return "F52"         # empty data tree
+            return "F71"         # empty data tree
         if case.get("kind") == "big" and delta > 0 and delta % 4 == 0:
-            return "F50"         # trailing meta records of the last chunk not skipped
+            return "F69"         # trailing meta records of the last chunk not skipped
         return None
     if case.get("f27") and case.get("stage") == "print" :
         return "F27"
     if case.get("wd") in ("all-tag", "impl-tag") and case.get("has_default") and case.get("stage") in ("parse", "compare", "crash"):
         return "F33"
     if case.get("rev_out_of_range") and case.get("stage") in ("parse", "crash", "print"):
-        return "F51"
+        return "F70"
     return None
 
 
